@@ -18,7 +18,12 @@
     (`gauss_unit_law`, `gauss_mech_law`), −log(1−U) ~ Exp(1) (`exp_of_uniform_map`), that four independent Gamma(d/4) draws
     times scale sum to Gamma(d, rate 1/scale) (`gamma_sum_law`, push-forward of the product of Mathlib's `gammaMeasure`), and
     acceptance–rejection over an i.i.d. stream (`rejection_conditional_law`, `boundedDomain_law`,
-    `discrete_gauss_loop_law`).  What is still only validated is listed in UNPROVED.
+    `discrete_gauss_loop_law`).  C03.lean §9–§11 prove, over the i.i.d. UNIFORM stream (product measure on ℕ → ℝ): the
+    Canonne–Kamath–Steinke loop has the discrete Gaussian law (`cks_pass_law`, `cks_renewal`, `cks_unbounded_loop_law`,
+    `cks_loop_law_full` for the model with its fuel), the batch layout of the rejection loop yields an i.i.d. Laplace
+    candidate stream (`batch_layout_iid`, `boundedDomain_stream_law`, `boundedNoise_stream_law`), and Snapping's released
+    value is `snapPost` of a Laplace variable with the grid point's cell probability (`snapping_sign_log_law`,
+    `snapping_release_law`, `snapping_grid_pmf`).  What is still only validated is listed in UNPROVED.
 """
 import math
 import secrets
@@ -46,25 +51,38 @@ TRUSTED = [
     "probability of a scripted proposal); eigen-decomposition, the bisection for b and multivariate_normal are numpy's; the "
     "law of the released direction is validated statistically in 2 dimensions only",
     "parameter validation (`_check_all`) is not modelled here (C13)",
+    "C03 sections 9-11 (laws over the uniform stream): the stream is the product measure of `unif01` on N -> R; the model's "
+    "loops carry fuel where Python's are unbounded (the theorems quantify over all fuels / take the union over all caps, "
+    "cks_loop_law_full keeps the model's fixed inner fuels and an explicit abort event); Snapping: `getrandbits(1)` is a "
+    "fair bit and the output of `_uniform_sampler` is idealised as a continuous uniform on [0,1)",
 ]
 UNPROVED = [
     "Vector: a normalised Gaussian vector is uniform on the sphere (validated: KS of every coordinate of b/|b| against "
     "its Beta marginal, of the angle for d = 2; the norm's law - four Gamma(d/4, scale) draws sum to Gamma(d, scale) - is "
     "now proved, gamma_sum_law, and its KS test of |b|/scale against Gamma(d,1) stays as supporting validation)",
-    "GaussianDiscrete: proved are the stop law of bernoulli_neg_exp's loop (sum over even stops = exp(-g), g <= 1), "
-    "proposal x acceptance = const x exp(-k^2/(2 sigma^2)), and the conditioning step over i.i.d. passes "
-    "(discrete_gauss_loop_law); NOT proved (Lean: def cks_loop_law_full): that the passes of the model's loop over an "
-    "i.i.d. UNIFORM stream are i.i.d. with that one-pass law - composition of the branches inside a pass (geomCount is a "
-    "loop of bernoulli_neg_exp calls, the recursion for g > 1) and the renewal argument for a random number of consumed "
-    "uniforms; validated only: sup over atoms of the real sampler's noise against the discrete Gaussian CDF",
+    "GaussianDiscrete: PROVED over the i.i.d. uniform stream (C03.lean section 9): geometric proposal, one-pass law = "
+    "cksPassProb (cks_pass_law; composition of the branches inside a pass, recursion of bernoulli_neg_exp for g > 1), "
+    "renewal (cks_renewal), the loop with unbounded inner loops returns y with the discrete Gaussian probability "
+    "(cks_unbounded_loop_law), the executable model is a restriction of it (cks_model_refines) and has that law up to "
+    "its fuel-exhaustion event: ret <= dG <= ret + abort (theorem cks_loop_law_full, formerly a def Prop). NOT proved: an "
+    "explicit bound on P[abort] for the model's FIXED inner fuels 64/4096/4096 (not small for large scales: the cap 4096 "
+    "on the geometric count is reached with probability about exp(-4096/(1+floor(scale))); the Python loops are "
+    "unbounded and have no such event); validated: sup over atoms of the real sampler's noise against the discrete "
+    "Gaussian CDF",
     "Bingham's rejection sampler (validated in 2-D: KS of the doubled angle against the von Mises law; at HEAD this "
     "FAILS — known finding C03:bingham:law:acceptance-inverted, counter-example theorem bingham_accept_cex)",
-    "the rejection samplers (LaplaceBoundedDomain / LaplaceBoundedNoise): proved are 'first accepted draw of the stream' "
-    "(any carrier), the law of each candidate (laplace4_law) and the conditional law for an i.i.d. stream of candidates "
-    "(boundedDomain_law); NOT proved: that the batch layout of the loop (sample i of a batch of s uses uniforms i, s+i, "
-    "2s+i, 3s+i) turns an i.i.d. uniform stream into an i.i.d. candidate stream (a fixed permutation of coordinates); "
-    "validated: KS against the conditioned Laplace CDF",
-    "Snapping: the law of the released grid point (validated: sup over atoms against the rounded, clamped Laplace law)",
+    "the rejection samplers (LaplaceBoundedDomain / LaplaceBoundedNoise): PROVED (C03.lean section 10): the batch layout "
+    "(sample i of a batch of s uses uniforms i, s+i, 2s+i, 3s+i) is an injective reindexing, turns the i.i.d. uniform "
+    "stream into an i.i.d. standard-Laplace candidate stream (batch_layout_iid), the model's candidates are a prefix of "
+    "it, hence the value returned on the uniform stream has the conditioned Laplace law (boundedDomain_stream_law, "
+    "boundedNoise_stream_law); exact real arithmetic, loop unbounded (any fuel); the KS test against the conditioned "
+    "Laplace CDF stays as supporting validation of the running code",
+    "Snapping: PROVED (C03.lean section 11) with a fair bit and a CONTINUOUS uniform U on [0,1): (-1)^bit log U is standard "
+    "Laplace (snapping_sign_log_law), the model's rounding is round-half-up to the grid with cells [(k-1/2)L, (k+1/2)L) "
+    "(snapping_round_half_up), the released value has the law snapPost#Laplace(clamped, 1/eps_eff) (snapping_release_law) "
+    "and the grid point L*k the Laplace probability of its cell (snapping_grid_pmf). NOT proved: that the law of the "
+    "model's snapUniform (the dyadic double mantissa*2^exponent from getrandbits) is the round-down of a continuous "
+    "uniform, and the rounding of crlibm/numpy log; validated: sup over atoms against the rounded, clamped Laplace law",
 ]
 RULE = ("per mechanism kind, parameters, inputs and random streams are generated from the seed; every stream is run on the "
         "real mechanism (scripted SystemRandom / RandomState through the public random_state= argument) for 3 inputs and "
@@ -1374,6 +1392,280 @@ def _stale_witness(kind, p1, attrs, p2, x, script):
     return w
 
 
+# ------------------------------------------------------------------------------------------------ long rejection runs
+
+def batch_sizes(n_candidates):
+    """sizes of the batches the doubling loop draws until it has looked at `n_candidates` candidates"""
+    out, s, tot = [], 1, 0
+    while tot < n_candidates:
+        out.append(s)
+        tot += s
+        s = min(100000, 2 * s)
+    return out
+
+
+def np_lap4(U):
+    return np.log(1 - U[:, 0]) * np.cos(np.pi * U[:, 1]) + np.log(1 - U[:, 2]) * np.cos(np.pi * U[:, 3])
+
+
+def longrun_laplace_stream(seed, N, inside):
+    """uniform stream (batch layout i, s+i, 2s+i, 3s+i respected) whose first N standard-Laplace candidates are rejected
+    by `inside` (with a margin) and whose candidate #N is accepted; returns (stream, accepted 4-tuple, uniforms consumed)"""
+    g = np.random.Generator(np.random.PCG64(int(seed)))
+    rej, acc = [], None
+    need = N
+    while need > 0 or acc is None:
+        U = g.random((max(4096, 4 * need), 4))
+        L = np_lap4(U)
+        ok, out = inside(L, +1), ~inside(L, -1)
+        if acc is None and ok.any():
+            acc = U[np.argmax(ok)]
+        if need > 0:
+            R = U[out][:need]
+            rej.append(R)
+            need -= len(R)
+    sizes = batch_sizes(N + 1)
+    total = sum(sizes)
+    T = np.vstack(rej + [acc[None, :], g.random((total - N - 1, 4))]) if total > N + 1 else np.vstack(rej + [acc[None, :]])
+    parts, pos = [], 0
+    for s_ in sizes:
+        blk = T[pos:pos + s_]
+        parts += [blk[:, 0], blk[:, 1], blk[:, 2], blk[:, 3]]
+        pos += s_
+    return np.concatenate(parts), [float(v) for v in acc], 4 * total
+
+
+def longrun_case(kind, p, x, N, seed, rs):
+    """run the real sampler on a stream with N rejected candidates before the first accepted one.
+    Returns None or a failure description.  The expected release is computed here (Python), not by the Lean driver."""
+    if kind in ("bdom", "bnoise"):
+        m0 = mk_mech(kind, p, make_rng(kind, {"u": []}))
+        if kind == "bdom":
+            m0._check_all(x)
+            scale = float(m0._find_scale())
+            xc = max(min(x, p["hi"]), p["lo"])
+            lo, hi = p["lo"], p["hi"]
+            centre = xc
+        else:
+            scale = p["sens"] / p["eps"]
+            b = scale * math.log(1 + (math.exp(p["eps"]) - 1) / 2 / p["delta"])
+            lo, hi, centre = -b, b, 0.0
+        mg = 1e-9 * (abs(lo) + abs(hi) + scale)
+
+        def inside(L, sgn):          # sgn=+1: surely inside, sgn=-1: possibly inside
+            v = centre + scale * L
+            return (v >= lo + sgn * mg) & (v <= hi - sgn * mg)
+        stream, acc, used = longrun_laplace_stream(seed, N, inside)
+        script = {"u": stream.tolist(), "rs": rs}
+        rr = run(kind, p, x, script)
+        if rr is None:
+            return f"asked for more than the {used} uniforms that contain {N} rejected candidates and then an accepted one"
+        want = centre + scale * ref_lap4(*acc) + (x if kind == "bnoise" else 0.0)
+        tol = 1e-13 * (abs(want) + abs(x) + 50 * scale)
+        if not (abs(float(rr[0]) - want) <= tol and rr[1]["u"] == used):
+            return (f"released {float(rr[0])!r} after {rr[1]['u']} uniforms; the first accepted candidate of the stream is #{N} = "
+                    f"{want!r} (after {used} uniforms; candidates #0..#{N - 1} fall outside [{lo!r}, {hi!r}])")
+        return None
+    if kind == "dgauss":
+        m0 = mk_mech(kind, p, make_rng(kind, {"u": []}))
+        sig = float(m0._scale)
+        tau = 1 / (1 + math.floor(sig))
+        s2 = sig ** 2
+        if not tau < 0.999:
+            return None
+        g0 = (0 - tau * s2) ** 2 / 2 / s2
+        r = gen.SplitMix64(seed)
+        us = []
+        for _ in range(N):
+            if r.chance(0.5):
+                us += [tau / 2, 0.999, 0.25]                         # geom 0, minus sign: "-0" is redrawn
+            else:
+                us += [tau / 2, 0.999, 0.75, g0 / 2, 0.9995]         # proposal 0, acceptance coin fails
+        us += [0.99999, tau / 2, 0.999, 0.25, 0.999999]              # geom 1, minus sign, accepted: noise -1
+        rr = run(kind, p, x, {"u": us, "rs": rs})
+        if rr is None:
+            return f"asked for more than the {len(us)} uniforms that contain {N} rejected proposals and then an accepted one"
+        if not (int(rr[0]) == x - 1 and rr[1]["u"] == len(us)):
+            return (f"released {int(rr[0])} after {rr[1]['u']} uniforms; the first accepted proposal of the stream is #{N}: noise -1, "
+                    f"i.e. {x - 1}, after {len(us)} uniforms")
+        return None
+    if kind == "geometric":
+        u_final = 0.5 + (p["u"] - 0.5)
+        def rel(us):
+            rng = seams.ScriptedSystemRandom(uniforms=us)
+            m = M.Geometric(epsilon=p["eps"], sensitivity=p["sens"], random_state=rng)
+            return int(m.randomise(x)), rng.n_uniform
+        a, b = rel([0.5] * N + [u_final]), rel([u_final])
+        if not (a[0] == b[0] and a[1] == N + 1):
+            return (f"after {N} draws of exactly 0.5 and then {u_final!r} released {a[0]} ({a[1]} uniforms); on the stream "
+                    f"[{u_final!r}] alone it releases {b[0]}")
+        return None
+    if kind == "bingham":
+        A = np.array(p["A"])
+        g = np.random.Generator(np.random.PCG64(int(seed)))
+        dims = A.shape[0]
+        props, ok = [], None
+        while len(props) < N or ok is None:
+            rows = g.standard_normal((4, dims)) * 0.5
+            uau, uou, bb = bingham_reference(p["eps"], p["sens"], A, rows)
+            mconst = math.exp(-(dims - bb) / 2) * (dims / bb) ** (dims / 2)
+            prob = math.exp(-uau) / mconst / uou ** (dims / 2)
+            if prob < 0.999 and len(props) < N:
+                props.append(rows)
+            elif ok is None and prob > 1e-6:
+                ok = rows
+        rng = BinghamSeqRS(props + [ok], [1 - 2.0 ** -53] * N + [0.0])
+        m = M.Bingham(epsilon=p["eps"], sensitivity=p["sens"], random_state=rng)
+        try:
+            out = m.randomise(A)
+        except seams.ScriptExhausted:
+            return f"asked for more than the {N + 1} proposals that contain {N} rejected ones and then an accepted one"
+        v = ok.sum(axis=0)
+        want = v / np.linalg.norm(v)
+        if not (np.all(np.abs(out - want) <= 1e-13) and rng.n_mvn == N + 1 and rng.n_uniform == N + 1):
+            return (f"released {out.tolist()} after {rng.n_mvn} proposals; the first accepted proposal of the stream is #{N} = "
+                    f"{want.tolist()}")
+        return None
+    raise KeyError(kind)
+
+
+class BinghamSeqRS(np.random.RandomState):
+    """RandomState with a scripted sequence of proposals (multivariate_normal) and acceptance uniforms"""
+
+    def __init__(self, rows_seq, us):
+        super().__init__(0)
+        self.rows_seq, self.us = rows_seq, us
+        self.n_mvn = 0
+        self.n_uniform = 0
+
+    def multivariate_normal(self, mean, cov, size=None, **k):
+        if self.n_mvn >= len(self.rows_seq):
+            raise seams.ScriptExhausted("proposal script exhausted")
+        self.n_mvn += 1
+        return np.array(self.rows_seq[self.n_mvn - 1], dtype=float)
+
+    def random(self, size=None):
+        if self.n_uniform >= len(self.us):
+            raise seams.ScriptExhausted("uniform script exhausted")
+        self.n_uniform += 1
+        return self.us[self.n_uniform - 1]
+
+
+LONG_NAMES = {"bdom": "LaplaceBoundedDomain", "bnoise": "LaplaceBoundedNoise", "dgauss": "GaussianDiscrete",
+              "geometric": "Geometric", "bingham": "Bingham"}
+
+
+def run_longruns(ctx):
+    """every looping sampler on scripted streams whose first N candidates are rejected, N in {1, 7, 100, 5000, 200000}"""
+    r = ctx.fork("long-runs")
+    big = 200000
+    plans = []
+    for kind in ("bdom", "bnoise"):
+        for N in (1, 7, 100, 5000, big):
+            plans.append((kind, N))
+    for N in (1, 7, 100, 5000) + ((big,) if ctx.tier == "thorough" else ()):
+        plans += [("dgauss", N), ("bingham", N)]
+    for N in (1, 7, 100, 5000, big):
+        plans.append(("geometric", N))
+    for kind, N in plans * max(1, ctx.scale if ctx.scale <= 3 else 3):
+        if kind == "bdom":
+            lo, w = r.choice([0.0, r.uniform(-5, 5)]), r.loguniform(0.5, 3.0)
+            p = {"eps": r.loguniform(0.3, 3.0), "delta": 0.0, "sens": w * r.uniform(0.3, 1.0), "lo": lo, "hi": lo + w}
+            x = lo + w * r.uniform(-0.2, 1.2)
+        elif kind == "bnoise":
+            p = {"eps": r.loguniform(0.3, 3.0), "delta": r.uniform(0.05, 0.45), "sens": r.loguniform(0.1, 10)}
+            x = gen_x(r)
+        elif kind == "dgauss":
+            p = {"eps": r.loguniform(0.05, 0.8), "delta": r.loguniform(1e-6, 1e-2), "sens": r.choice([1, 2, 3])}
+            x = r.randint(-50, 50)
+        elif kind == "geometric":
+            p = {"eps": r.loguniform(0.05, 5.0), "sens": r.choice([1, 2, 5]), "u": r.choice([r.u01(), 0.5 + 2.0 ** -53, 0.25])}
+            if p["u"] == 0.5:
+                p["u"] = 0.75
+            x = r.randint(-50, 50)
+        else:
+            bc = gen_bingham_case(r)
+            p = {"eps": bc["eps"], "sens": bc["sens"], "A": bc["A"]}
+            x = None
+        seed, rs = r.next() % (1 << 62), r.chance(0.5)
+        ctx.case(("long-run", kind, N, rs))
+        ctx.count("long_run_cases_expected_value_computed_in_python")
+        bad = longrun_case(kind, p, x, N, seed, rs)
+        if bad:
+            ctx.violation(f"C03:{LONG_NAMES[kind]}:not-first-accepted-after-long-rejection-run",
+                          f"{LONG_NAMES[kind]}({p}).randomise({x!r}) on a scripted stream whose first {N} candidates are rejected: {bad}",
+                          {"check": "longrun", "kind": kind, "params": p, "x": x, "N": N, "seed": seed, "rs": rs})
+        else:
+            ctx.trace_ok()
+
+
+# ------------------------------------------------------------------------------------------------ extreme acceptance
+
+def run_low_acceptance(ctx):
+    """the real rejection samplers where almost every candidate is rejected (acceptance probability down to ~5e-8 for
+    LaplaceBoundedDomain, ~1e-5 for LaplaceBoundedNoise): releases stay inside the domain, are never atoms on the bounds, and
+    have the conditioned-Laplace law for two different inputs (numpy back-end: the candidates are drawn in vectorised batches)"""
+    r = ctx.fork("low-acceptance")
+    thorough = ctx.tier == "thorough"
+    plans = [("bdom", 2e-3, 300), ("bdom", 2e-4, 200), ("bdom", 2e-5, 2000 if thorough else 120), ("bdom", 1e-6, 40 if thorough else 3),
+             ("bdom", 1e-7, 8 if thorough else 1), ("bnoise", 2e-3, 300), ("bnoise", 2e-5, 1000 if thorough else 100)]
+    for kind, ratio, n in plans:
+        seed = r.next() % (2 ** 32)
+        if kind == "bdom":
+            lo, w, sens = r.uniform(-2, 2), r.loguniform(0.5, 2.0), r.loguniform(0.5, 2.0)
+            p = {"eps": ratio * sens / w, "delta": 0.0, "sens": sens, "lo": lo, "hi": lo + w}
+            xs = [lo + 0.2 * w, lo + 0.9 * w]
+        else:
+            dl = r.uniform(0.3, 0.45)
+            p = {"eps": math.log(1 + 2 * dl * math.expm1(ratio / 2)), "delta": dl, "sens": r.loguniform(0.5, 2.0)}   # P(accept) ~ ratio/2
+            xs = [0.0, 3.25]
+        bad = low_acceptance_case(kind, p, xs, n, seed)
+        ctx.case(("low-acceptance", kind, ratio))
+        ctx.count("low_acceptance_releases", n * len(xs))
+        if bad:
+            ctx.violation(f"C03:{LONG_NAMES[kind]}:law-at-low-acceptance", f"{LONG_NAMES[kind]}({p}), {n} releases per input: {bad}",
+                          {"check": "lowacc", "kind": kind, "params": p, "xs": xs, "n": n, "seed": seed})
+        else:
+            ctx.trace_ok()
+
+
+def low_acceptance_case(kind, p, xs, n, seed):
+    m = mk_mech(kind, p, np.random.RandomState(int(seed)))
+    for x in xs:
+        out = np.array([float(m.randomise(x)) for _ in range(n)])
+        if kind == "bdom":
+            lo, hi, sc = p["lo"], p["hi"], float(m._scale)
+            a, b = (lo - x) / sc, (hi - x) / sc
+            rel = out
+        else:
+            sc = p["sens"] / p["eps"]
+            B = sc * math.log(1 + (math.exp(p["eps"]) - 1) / 2 / p["delta"])
+            lo, hi, a, b = -B, B, -B / sc, B / sc
+            rel = out - x
+        tol = 8 * EPS * abs(x) if kind == "bnoise" else 0.0
+        if not np.all((rel >= lo - tol) & (rel <= hi + tol)):
+            return f"input {x!r}: a release lies outside [{lo!r}, {hi!r}]: {rel[(rel < lo - tol) | (rel > hi + tol)][:3].tolist()}"
+        atoms = int(np.sum((rel == lo) | (rel == hi)))
+        if kind == "bdom" and atoms:
+            return (f"input {x!r}: {atoms} of {n} releases sit exactly on a bound of the domain (an atom; the conditioned Laplace law "
+                    f"has none)")
+        if n >= 40:
+            lo_, hi_ = float(laplace_cdf(a)), float(laplace_cdf(b))
+            if hi_ - lo_ > 0:
+                # for a tiny window the conditioned Laplace CDF is evaluated through its density ratio (no cancellation)
+                def cdf(t):
+                    t = np.clip(t, a, b)
+                    if b - a < 1e-6:
+                        return (t - a) / (b - a)
+                    return np.clip((laplace_cdf(t) - lo_) / (hi_ - lo_), 0, 1)
+                d = sup_distance((rel - (x if kind == "bdom" else 0.0)) / sc, cdf)
+                thr = dkw_threshold(n)
+                if not d <= thr:
+                    return (f"input {x!r}: sup-distance {d:.4f} of (release − input)/scale from the Laplace law conditioned on the "
+                            f"domain exceeds the DKW threshold {thr:.4f} at n={n}")
+    return None
+
+
 # ------------------------------------------------------------------------------------------------ entry points
 
 def nontrivial_key(case, info):
@@ -1432,6 +1724,8 @@ def check(ctx):
             ctx.trace_ok()
     ctx.count("driver_lines", len(all_lines))
     run_live(ctx)
+    run_longruns(ctx)
+    run_low_acceptance(ctx)
     run_bingham(ctx)
     run_stats(ctx)
 
@@ -1441,6 +1735,10 @@ def replay(ctx, data):
     if d.get("check") == "stat":
         res = stat_test(d["name"], d["params"], int(d["seed"]), int(d["n"]))
         return any(not rec[1] <= rec[2] for rec in res)
+    if d.get("check") == "longrun":
+        return longrun_case(d["kind"], d["params"], d["x"], int(d["N"]), int(d["seed"]), bool(d["rs"])) is not None
+    if d.get("check") == "lowacc":
+        return low_acceptance_case(d["kind"], d["params"], d["xs"], int(d["n"]), int(d["seed"])) is not None
     if d.get("check") == "live":
         lc = d["live"]
         return live_sequence(lc["kind"], lc["p1"], lc["p2"], lc["attrs"], lc["copy"], lc["x"], lc["script"]) is not None
